@@ -56,6 +56,10 @@ CHECKS = {
          "Exploration: 4000 component-graph fonts (depth<=4, shared bases, arbitrary affine transforms, anchors) x the real Decompose / DecomposeTransformed / Flatten / Transformations / PropagateAnchors filter objects with include/exclude/predicate selections on the font, a glyph-set copy or a foreign dict; the glyphs are read back and every glyph's fully resolved contours must equal (exactly for dyadic inputs) the original's, resp. its image under the requested matrix; propagated anchors must lie where some component path puts a base anchor; second application adds nothing.",
          "Exact for dyadic/integer inputs, 1e-9 relative otherwise; selection heuristics of anchor propagation deliberately not re-implemented.",
          "DESIGN.md section 5 C15"),
+ "C06": ("runtime monitoring: GPOS interpreter (MarkBasePos / MarkLigPos / MarkMarkPos with lookup flags and filtering sets, later lookup wins) against anchor-difference candidates computed from the UFO",
+         "Exploration: 600 generated UFOs (marks with several attaching anchors, bases, ligatures with numbered anchors and gaps, mark-to-mark anchors, fractional coordinates, Indic code points for abvm/blwm, roles by anchors / categories / user GDEF, groupMarkClasses, quantisation); every glyph pair (and every ligature component) is evaluated under every script tag with mark, mkmk, abvm, blwm active together; the final attachment must be one of the source-defined candidates, or absent when there is none.",
+         "Trusts fontTools' GPOS/GDEF readers; shaper semantics of DESIGN section 3; only the mark (and GDEF) writer runs.",
+         "DESIGN.md section 5 C06, section 6"),
 }
 
 NOT_APPLICABLE = [
